@@ -10,5 +10,8 @@ CONSTANTS
   SendErrDelivered = TRUE
   AllowRdFail = TRUE
   AllowWrFail = TRUE
+  AllowCancel = FALSE
+  ChanCap1 = TRUE
+  KeepSlotOnCancel = TRUE
 INVARIANTS Inv_C03_DistinctIds
 CHECK_DEADLOCK TRUE
